@@ -21,5 +21,6 @@ import Rsactor.Ties.conversions_shape
 import Rsactor.Ties.spawn_shape
 import Rsactor.Ties.metrics_guard_shape
 import Rsactor.Ties.metrics_placement_shape
+import Rsactor.Ties.feature_sites_shape
 import Rsactor.Ties.ask_protocol_shape
 import Rsactor.Ties.ask_join_shape
